@@ -222,11 +222,7 @@ def run(ctx):
     # ... created with the absolute position of the region's first byte as its offset (shared with C08.R3): an absolute Pointer target inside the
     # region is translated by exactly that offset
     if not getattr(ctx, "_shared_into_c08", False):
-        from ..core import Ctx as _Ctx8
-        sub8 = _Ctx8("C08", ctx.tier, ctx.root, model=ctx.model)
-        sub8._summ = summariser(ctx)
-        sub8._shared_into_c09 = True
-        C08.run(sub8)
+        sub8 = shared_run(ctx, C08, prop="C08", flags=("_shared_into_c09",))
         for e in sub8.errors:
             ctx.error("shared C08 rules: " + e)
         for o in sub8.obligations:
@@ -236,9 +232,7 @@ def run(ctx):
     # out nothing and moves nothing, seek() accepts only the current position (shared with C10.R4) -- what a failed alternative relies on to rewind
     from ..core import Ctx as _Ctx
     from . import C10
-    sub = _Ctx("C10", ctx.tier, ctx.root, model=ctx.model)
-    sub._summ = summariser(ctx)
-    C10.run(sub)
+    sub = shared_run(ctx, C10, prop="C10")
     for e in sub.errors:
         ctx.error("shared C10 rules: " + e)
     for o in sub.obligations:
